@@ -414,20 +414,30 @@ op_rule!(op_1, op_1_5, alt((tag("||"), tag_no_case("or"))));
 
 rule!(op_if(i) -> Value, {
     map(
-        alt((
-            nom_tuple((
-                preceded(tag("if"),op_0),
-                preceded(ws(tag("then")),op_0),
-                preceded(ws(tag("else")),op_0),
-            )) ,
-            nom_tuple((
-                terminated(op_1,ws(tag("?"))),
-                terminated(op_0,ws(tag(":"))),
-                op_0
-            )) ,
-        )),
+        nom_tuple((
+            preceded(tag("if"),op_0),
+            preceded(ws(tag("then")),op_0),
+            preceded(ws(tag("else")),op_0),
+        )) ,
         |(cond, yes, no)| {
             If::make_call(cond, yes, no).into()
+        }
+    )
+});
+
+// op_1 followed by an optional "? … : …", so that the condition is parsed only once
+rule!(op_cond(i) -> Value, {
+    map(
+        nom_tuple((
+            op_1,
+            opt(nom_tuple((
+                preceded(ws(tag("?")),op_0),
+                preceded(ws(tag(":")),op_0),
+            ))),
+        )),
+        |(cond, tail)| match tail {
+            Some((yes, no)) => If::make_call(cond, yes, no).into(),
+            None => cond,
         }
     )
 });
@@ -458,7 +468,7 @@ rule!(op_0 -> Value, {
     alt((
         op_if,
         op_let,
-        op_1
+        op_cond
     ))
 });
 
